@@ -10,7 +10,8 @@ FUNCS = ["sievelib.factory.FiltersSet.addfilter", "updatefilter", "replacefilter
 def hist_conds(mode, L, timeout, extra_env=None, by_name=False, nn=3, nd=3):
     out = []
     for op in range(H.NOPS):
-        names = [(n, n + 1) for n in range(nn)] if by_name else [(0, nn)]
+        n1 = nn + 1 if nn == 3 else nn
+        names = [(n, n + 1) for n in range(n1)] if by_name else [(0, n1)]
         for lo, hi in names:
             env = {"C12_MODE": mode, "C12_OP0LO": op, "C12_OP0HI": op + 1, "C12_N0LO": lo, "C12_N0HI": hi,
                    "C12_NN": nn, "C12_ND": nd}
